@@ -292,7 +292,114 @@ func (fa *FA) calleeFactsOfCall(call *ssa.Call) []Fact {
 			}
 		}
 	}
+	out = append(out, fa.heapPostFacts(call)...)
 	return out
+}
+
+// heapPostFacts: what a successful call leaves in the slice fields of the objects it was handed: when every success
+// return of the callee has `len(param_i.f) >= 1` (e.g. `br.refill(ctx)` stores a non-empty batch into br.dirs before
+// returning nil), the state of arg_i.f right after the call — the memory version the call creates — has that length.
+func (fa *FA) heapPostFacts(call *ssa.Call) []Fact {
+	g := staticCallee(&call.Call)
+	if g == nil || !fa.P.InModule(g) || g.Blocks == nil {
+		return nil
+	}
+	var out []Fact
+	for i, prm := range g.Params {
+		if i >= len(call.Call.Args) {
+			break
+		}
+		pt, ok := prm.Type().Underlying().(*types.Pointer)
+		if !ok {
+			continue
+		}
+		st, ok := pt.Elem().Underlying().(*types.Struct)
+		if !ok {
+			continue
+		}
+		argK := fa.Sym(call.Call.Args[i]).K
+		for k := 0; k < st.NumFields(); k++ {
+			if _, isSl := st.Field(k).Type().Underlying().(*types.Slice); !isSl {
+				continue
+			}
+			fname := st.Field(k).Name()
+			if fa.P.fieldLenPost(g, i, fname) < 1 {
+				continue
+			}
+			// the address &arg.f as the caller writes it, and the version this call creates in its class
+			var as *Sym
+			var cls locClass
+			eachInstr(fa.Fn, func(in ssa.Instruction) {
+				f2, ok := in.(*ssa.FieldAddr)
+				if !ok || as != nil || fieldName(f2.X.Type(), f2.Field) != fname || fa.Sym(f2.X).K != argK {
+					return
+				}
+				as, cls = fa.Sym(f2), addrClass(f2)
+			})
+			if as == nil {
+				continue
+			}
+			ver := fa.verInfoFor(cls).clob[call]
+			if ver == 0 {
+				continue
+			}
+			post := &Sym{Op: "ld", K: fmt.Sprintf("ld(%s)@%d", as.K, ver), Args: []*Sym{as}, T: st.Field(k).Type(), Aux: string(cls)}
+			out = append(out, le(linConst(1), fa.linSym(lenOf(post), 0), fmt.Sprintf("%s leaves len(%s.%s) >= 1 on success", fnName(g), prm.Name(), fname)))
+		}
+	}
+	return out
+}
+
+var fieldLenPostCache = map[string]int64{}
+
+// fieldLenPost: 1 when on every success return of g (nil error; every return if g has no error result) the slice field
+// `name` of the object parameter i points to is known to be non-empty, else 0.
+func (p *Prog) fieldLenPost(g *ssa.Function, i int, name string) int64 {
+	key := fmt.Sprintf("%p/%d/%s", g, i, name)
+	if v, ok := fieldLenPostCache[key]; ok {
+		return v
+	}
+	fieldLenPostCache[key] = 0
+	gfa := p.FA(g)
+	prm := g.Params[i]
+	var as *Sym
+	var cls locClass
+	var ft types.Type
+	eachInstr(g, func(in ssa.Instruction) {
+		f2, ok := in.(*ssa.FieldAddr)
+		if !ok || as != nil || f2.X != ssa.Value(prm) || fieldName(f2.X.Type(), f2.Field) != name {
+			return
+		}
+		as, cls = gfa.Sym(f2), addrClass(f2)
+		ft = f2.Type().Underlying().(*types.Pointer).Elem()
+	})
+	if as == nil {
+		return 0
+	}
+	n := 0
+	for _, rs := range returnSites(g) {
+		if len(rs.Results) > 0 {
+			last := rs.Results[len(rs.Results)-1]
+			if isErrorType(last.Type()) && !isNilConst(last) {
+				if _, isConst := last.(*ssa.Const); isConst || errNeverNilAt(last, rs.At()) {
+					continue
+				}
+				return 0 // an error that may be nil: not a plain success/failure exit
+			}
+		}
+		n++
+		val := gfa.memValueAtEnd(as, cls, rs.At().Block(), ft)
+		l := gfa.linSym(lenOf(val), 0)
+		facts := gfa.FactsAtSite(rs, l)
+		if !EntailsLE(facts, linConst(1), l) {
+			return 0
+		}
+	}
+	if n == 0 {
+		return 0
+	}
+	fieldLenPostCache[key] = 1
+	return 1
 }
 
 type retFact struct {
@@ -601,6 +708,25 @@ func (fa *FA) phiLowerBound(phi *ssa.Phi) []Fact {
 	}
 	self := linAtom(ps)
 	var lows []*Lin
+	// the symmetric upper bound for a loop that counts down: every edge is the initial value or the phi minus a
+	// non-negative constant, so the phi never exceeds its (single) initial value
+	var highs []*Lin
+	okHigh := true
+	for _, e := range phi.Edges {
+		l := fa.Lin(e)
+		d := l.Sub(self)
+		if c, ok := d.IsConst(); ok {
+			if c > 0 {
+				okHigh = false
+			}
+			continue
+		}
+		highs = append(highs, l)
+	}
+	var upper []Fact
+	if okHigh && len(highs) == 1 {
+		upper = append(upper, le(self, highs[0], "loop invariant: "+ps.K+" <= initial value "+highs[0].String()+" (the loop only counts down)"))
+	}
 	for _, e := range phi.Edges {
 		l := fa.Lin(e)
 		d := l.Sub(self)
@@ -608,14 +734,15 @@ func (fa *FA) phiLowerBound(phi *ssa.Phi) []Fact {
 			if c >= 0 {
 				continue // i + c, c ≥ 0: preserves any lower bound
 			}
-			return nil
+			return upper
 		}
 		lows = append(lows, l)
 	}
 	if len(lows) == 0 {
-		return nil
+		return upper
 	}
 	var out []Fact
+	out = append(out, upper...)
 	if len(lows) == 1 {
 		out = append(out, le(lows[0], self, "loop invariant: "+ps.K+" >= initial value "+lows[0].String()))
 		return out
